@@ -74,7 +74,8 @@ def restore(cls, inst, params):
 
 
 def sym_inputs(lens, tag=""):
-    return (SymBytes.fresh(tag + "pw", lens[0]), SymBytes.fresh(tag + "idA", lens[1]), SymBytes.fresh(tag + "idB", lens[2]))
+    mk = lambda nm, n: SymBytes.fresh(tag + nm, n) if n <= 256 else SymBytes.fresh_chunk(tag + nm, n)
+    return (mk("pw", lens[0]), mk("idA", lens[1]), mk("idB", lens[2]))
 
 
 def msg_log(inst):
